@@ -1,8 +1,8 @@
 #!/bin/sh
 # independent re-check of every compiled property file with coqchk; prints the axioms each depends on
-cd /verif/coq || exit 1
+cd "$(dirname "$0")/../coq" || exit 1
 python3 -c "
-import sys; sys.path.insert(0,'/verif')
+import sys; sys.path.insert(0,"..")
 from lib import common as C
 ok, log = C.run_gen(); print('gen', ok)
 ok, log = C.coq_build(); print('full build', ok, C.failed_files(log))
